@@ -1,10 +1,10 @@
 SPECIFICATION SSpec
 CONSTANTS
   MaxWrites = 4
-  OneFifo = FALSE
+  OneFifo = TRUE
   CrossTag = FALSE
   Reuse = FALSE
-  Handover = FALSE
+  Handover = TRUE
   Requeue = FALSE
-INVARIANTS Prefix NoCrossing Complete
+INVARIANTS Prefix NoCrossing Complete Run
 CHECK_DEADLOCK FALSE
